@@ -694,11 +694,25 @@ def _subst_attr_chain(fnode):
                 order = [x for st in block[i + 1:last + 1] for x in _in_order(st)]
                 upos = [k for k, x in enumerate(order) if any(x is u for u in uses)]
                 lastpos = max(upos)
+                # arms: which (if-statement, arm) each node sits in - nodes in different arms of one `if` are never both executed
+                arms = {}
+                for st in block[i + 1:last + 1]:
+                    for iff in ast.walk(st):
+                        if isinstance(iff, ast.If):
+                            for tag, arm in (("b", iff.body), ("e", iff.orelse)):
+                                for a_st in arm:
+                                    for y in ast.walk(a_st):
+                                        arms.setdefault(id(y), set()).add((id(iff), tag))
+
+                def exclusive(a, b):
+                    A, B = arms.get(id(a), set()), arms.get(id(b), set())
+                    return any((i_, "b") in A and (i_, "e") in B or (i_, "e") in A and (i_, "b") in B for i_ in {x_[0] for x_ in A | B})
+
                 for k, x in enumerate(order[:lastpos]):
                     if isinstance(x, ast.Call) and not (isinstance(x.func, ast.Name) and x.func.id in PURE_BUILTINS):
                         # a call that completes before some later use of the temporary
                         inside = {id(y) for y in ast.walk(x)}
-                        if any(id(order[p]) not in inside for p in upos if p > k):
+                        if any(id(order[p]) not in inside and not exclusive(x, order[p]) for p in upos if p > k):
                             ok = False
                     if isinstance(x, ast.Attribute) and isinstance(x.ctx, (ast.Store, ast.Del)) and x.attr in ch[1]:
                         ok = False
